@@ -305,7 +305,14 @@ class Impl:
         # three gateways out of four run with debug logging on, the fourth with it off
         _LOG_STATE["count"] += 1
         debug_logging(_LOG_STATE["count"] % 4 != 0)
-        self.loop = loop or asyncio.new_event_loop()
+        # one event loop for all scripted gateways (a loop of its own per gateway costs three file
+        # descriptors; thousands of histories are alive at once in the thorough tier)
+        self._own_loop = False
+        if loop is None:
+            if _LOG_STATE.get("loop") is None or _LOG_STATE["loop"].is_closed():
+                _LOG_STATE["loop"] = asyncio.new_event_loop()
+            loop = _LOG_STATE["loop"]
+        self.loop = loop
         self.tr = ScriptedTransport()
         self.gw = Gateway(self.tr, Config(metric=metric))
         self.ops: list[str] = [f"I {1 if metric else 0}"]
@@ -321,7 +328,6 @@ class Impl:
             except Exception:  # noqa: BLE001
                 pass
             self._agen = None
-        self.loop.close()
 
     def _record(self, op: str, out: str, raw: Any = None) -> None:
         self.ops.append(op)
